@@ -225,9 +225,10 @@ def run_worker(ctx, family, infile, args, shards=None, prefix=None, timeout=1800
     return res
 
 
-def run_oracle(ctx, module, obsfiles, consts=None, timeout=1200, heap='3g', cfg_names=('ObsFile', 'VerdictFile')):
+def run_oracle(ctx, module, obsfiles, consts=None, timeout=1200, heap='3g', cfg_names=('ObsFile', 'VerdictFile'), lazy=False):
     """Evaluate the property predicates of a TLA+ oracle module on observation files, one TLC
-    process per file, in parallel.  Returns the list of (observation, verdict) pairs."""
+    process per file, in parallel.  Returns the list of (observation, verdict) pairs; with lazy=True an
+    iterator that reads them file by file (millions of observations do not fit in memory at once)."""
     consts = consts or {}
 
     def one(i):
@@ -244,6 +245,8 @@ def run_oracle(ctx, module, obsfiles, consts=None, timeout=1200, heap='3g', cfg_
         rc, out = tlc(ctx, module, cfg, workers=1, timeout=timeout, heap=heap, name='%s_or%d_%d' % (module, _meta[0], i))
         if rc != 0 or not os.path.exists(vf):
             raise Broken('oracle %s failed on %s:\n%s' % (module, obsfiles[i], out[-3000:]))
+        if lazy:
+            return (obsfiles[i], vf)
         obs = [json.loads(l) for l in open(obsfiles[i])]
         ver = [json.loads(l) for l in open(vf)]
         if len(obs) != len(ver):
@@ -254,6 +257,19 @@ def run_oracle(ctx, module, obsfiles, consts=None, timeout=1200, heap='3g', cfg_
     with ThreadPoolExecutor(max_workers=NCPU) as ex:
         res = list(ex.map(one, range(len(obsfiles))))
     log('[oracle] %s: %d files, %.1fs' % (module, len(obsfiles), time.time() - t))
+    if lazy:
+        def gen():
+            for r in res:
+                if not r:
+                    continue
+                n = 0
+                with open(r[0]) as fo, open(r[1]) as fv:
+                    for lo, lv in zip(fo, fv):
+                        n += 1
+                        yield json.loads(lo), json.loads(lv)
+                if n != count_lines(r[0]) or n != count_lines(r[1]):
+                    raise Broken('oracle %s: observation and verdict counts differ for %s' % (module, r[0]))
+        return gen()
     return [p for r in res for p in r]
 
 
